@@ -430,3 +430,34 @@ Proof.
   eexists. split; [reflexivity|].
   unfold EncInv. cbn [objs buf]. repeat split; try assumption. congruence.
 Qed.
+
+(* ---------- one field, encode: every language ---------- *)
+
+Lemma post_enc_nil L lf ch : post L true lf ch = [].
+Proof. unfold post. destruct (lk lf); reflexivity. Qed.
+
+Theorem leaf_encode L lf ch M u i0 s :
+  leaf_ok lf -> pat_ok lf u -> mem_get M ch = Some (mkcell (leaf_cty lf) u) ->
+  0 <= i0 -> bytes_ok s -> 0 <= bufZ s < 2 ^ i0 ->
+  i0 + leaf_bits lf <= 8 * Z.of_nat (length s) ->
+  exists s',
+    run (leaf_stmts L true (ch, lf) i0) (mkst s M) = Some (mkst s' M) /\
+    bytes_ok s' /\ length s' = length s /\
+    bufZ s' = bufZ s + 2 ^ i0 * (u mod 2 ^ leaf_bits lf).
+Proof.
+  intros Hok Hpat Hget Hi0 Hs HB Hlen.
+  destruct (leaf_facts lf Hok) as (Hn & _ & _). cbv zeta in Hn.
+  unfold leaf_stmts. cbn [fst snd]. rewrite post_enc_nil, app_nil_r. unfold leaf_plan.
+  destruct (plan_loop_inv (item L true lf ch) (EncInv M (length s) (bufZ s) i0 u) i0 (leaf_bits lf))
+    with (fuel := Z.to_nat (leaf_bits lf)) (j := 0) (st := mkst s M) as (st' & Hrun & HI).
+  - intros j st Hj HI. destruct L.
+    + apply enc_step_cle; assumption.
+    + apply enc_step_cbe; assumption.
+    + apply enc_step_go; assumption.
+  - lia.
+  - lia.
+  - unfold EncInv. cbn [objs buf]. repeat split; try assumption.
+    change (2 ^ 0) with 1. rewrite Z.mod_1_r. lia.
+  - rewrite Z.add_0_r in Hrun. destruct HI as (HM & Hs' & Hl' & Hb').
+    exists (buf st'). destruct st' as [b o]. cbn [objs buf] in *. subst o. auto.
+Qed.
